@@ -128,16 +128,10 @@ def _eval_case(pp, job):
                 keep = bool(root.keepTabs)  # transform_string sets it for good (core.py:1350)
                 try:
                     impl = common.with_alarm(CASE_TIMEOUT, gram.run_entry, pp, root, entry, s, opts)
-                except common.CaseTimeout:
-                    # slow is not the same as stuck (exponential backtracking on a long input): one more try with a
-                    # limit 10x as generous before the call is recorded as `hang`
-                    try:
-                        set_mode(pp, mode)
-                        impl = common.with_alarm(CASE_TIMEOUT * 10, gram.run_entry, pp, root, entry, s, opts)
-                    except common.CaseTimeout:
-                        impl = "hang"
-                        with _TIMEOUTS.get_lock():
-                            _TIMEOUTS.value += 1
+                except common.CaseTimeout:       # (with_alarm has already retried with a 10x limit)
+                    impl = "hang"
+                    with _TIMEOUTS.get_lock():
+                        _TIMEOUTS.value += 1
                 finally:
                     pp.ParserElement.disable_memoization()
                 line = gram.model_line(mode_sexp(mode), entry, FUEL, ri, dw, s, keep, opts, nodes)
